@@ -138,6 +138,82 @@ def inferred_types(tier: str) -> List[Tuple[Any, List[str]]]:
     return list(out.values())
 
 
+def process_type(res: Result, ctx_tier: str, ci: int, X: Any, exprs: List[str], sing, memo, DEFAULT_REWRITER, ChainedRewriter) -> None:
+    """Everything that is done with one type, in a fixed order (singles, the 49 pairs, the default chain): state carried
+    between rewriter calls is part of what is explored, so --replay re-runs this whole procedure for the case's type."""
+
+    def step(rname, rw, X, vals):
+        key = (rname, O.ostruct(X))
+        if key not in memo or vals:
+            res.transitions += 1
+            res.evaluations += 1
+            res.validated += 1
+            memo[key] = step_check(rname, rw, X, vals)
+        return memo[key]
+
+    res.states += 1
+    vals = [V.ev(e) for e in exprs]
+    case = {"type_index": ci, "tier": ctx_tier, "type": O.show(X), "values": exprs}
+    outs = {}
+    for rname, rw in sing:
+        Y, viol = step(rname, rw, X, vals)
+        outs[rname] = Y
+        if viol:
+            res.violate(Violation(ID, viol[0], viol[1], dict(case, rewriter=[rname]), viol[2]))
+        elif Y is not None:
+            changed = O.struct(Y) != O.struct(X)
+            res.oblige(f"{rname}:{'changed' if changed else 'unchanged'}", True)
+            if changed:
+                res.nontrivial_n += 1
+                res.outcomes.add((rname, hash(O.struct(Y))))
+    # chains: every ordered pair; ChainedRewriter must equal sequential composition, each step judged alone
+    for (n1, r1), (n2, r2) in itertools.product(sing, sing):
+        Y1 = outs.get(n1)
+        if Y1 is None:
+            continue
+        Y2, viol = step(n2, r2, Y1, [])
+        if viol:
+            res.violate(Violation(ID, viol[0], viol[1], dict(case, rewriter=[n1, n2]), f"after {n1}: " + viol[2]))
+            continue
+        res.transitions += 1
+        try:
+            Yc = ChainedRewriter([r1, r2]).rewrite(X)
+        except Exception as e:  # noqa: BLE001
+            if Y2 is not None:
+                res.violate(Violation(ID, "exception", f"chain:{type(e).__name__}", dict(case, rewriter=[n1, n2]), f"chain raised {e!r}"))
+            continue
+        if Y2 is not None and O.struct(Yc) != O.struct(Y2):
+            res.violate(Violation(ID, "chain", "chain-not-sequential", dict(case, rewriter=[n1, n2]), f"Chained({n1},{n2})({O.show(X)}) = {O.show(Yc)} but sequential = {O.show(Y2)}"))
+    # the default chain as shipped
+    cur = X
+    ok = True
+    names = []
+    for rw in DEFAULT_REWRITER.rewriters:
+        rname = name_of(rw)
+        names.append(rname)
+        Y, viol = step(rname, rw, cur, vals if cur is X else [])
+        if viol:
+            res.violate(Violation(ID, viol[0], "DEFAULT/" + viol[1], dict(case, rewriter=["DEFAULT"]), f"default chain at {rname}: " + viol[2]))
+            ok = False
+            break
+        cur = Y
+    if ok:
+        res.transitions += 1
+        try:
+            Yd = DEFAULT_REWRITER.rewrite(X)
+            if O.struct(Yd) != O.struct(cur):
+                res.violate(Violation(ID, "chain", "default-not-sequential", dict(case, rewriter=["DEFAULT"]), f"DEFAULT({O.show(X)}) = {O.show(Yd)} but sequential = {O.show(cur)}"))
+            for w in [w for w in witnesses(X) if O.member(w, X)] + [v for v in vals if O.member(v, X)]:
+                if not O.member(w, Yd):
+                    res.violate(Violation(ID, "narrow", "DEFAULT:narrow", dict(case, rewriter=["DEFAULT"]), f"DEFAULT: {O.show(X)} -> {O.show(Yd)} no longer admits {w!r}"))
+                    break
+            res.oblige("DEFAULT:names=" + ",".join(names), True)
+        except Exception as e:  # noqa: BLE001
+            res.violate(Violation(ID, "exception", f"DEFAULT:{type(e).__name__}", dict(case, rewriter=["DEFAULT"]), f"DEFAULT raised {e!r}"))
+    if ci % 1501 == 0:
+        res.sample({"type": O.show(X), "from_values": exprs})
+
+
 def run(ctx: Ctx) -> Result:
     quick = ctx.quick
     nshards = ctx.workers * 3
@@ -153,78 +229,9 @@ def run(ctx: Ctx) -> Result:
         cases = synth + inferred_types(ctx.tier)
         memo: Dict[Tuple[str, Any], Tuple[Any, Any]] = {}
 
-        def step(rname, rw, X, vals):
-            key = (rname, O.ostruct(X))
-            if key not in memo or vals:
-                res.transitions += 1
-                res.evaluations += 1
-                res.validated += 1
-                memo[key] = step_check(rname, rw, X, vals)
-            return memo[key]
-
         for ci in range(si, len(cases), nshards):
             X, exprs = cases[ci]
-            res.states += 1
-            vals = [V.ev(e) for e in exprs]
-            case = {"type_index": ci, "tier": ctx.tier, "type": O.show(X), "values": exprs}
-            outs = {}
-            for rname, rw in sing:
-                Y, viol = step(rname, rw, X, vals)
-                outs[rname] = Y
-                if viol:
-                    res.violate(Violation(ID, viol[0], viol[1], dict(case, rewriter=[rname]), viol[2]))
-                elif Y is not None:
-                    changed = O.struct(Y) != O.struct(X)
-                    res.oblige(f"{rname}:{'changed' if changed else 'unchanged'}", True)
-                    if changed:
-                        res.nontrivial_n += 1
-                        res.outcomes.add((rname, hash(O.struct(Y))))
-            # chains: every ordered pair; ChainedRewriter must equal sequential composition, each step judged alone
-            for (n1, r1), (n2, r2) in itertools.product(sing, sing):
-                Y1 = outs.get(n1)
-                if Y1 is None:
-                    continue
-                Y2, viol = step(n2, r2, Y1, [])
-                if viol:
-                    res.violate(Violation(ID, viol[0], viol[1], dict(case, rewriter=[n1, n2]), f"after {n1}: " + viol[2]))
-                    continue
-                res.transitions += 1
-                try:
-                    Yc = ChainedRewriter([r1, r2]).rewrite(X)
-                except Exception as e:  # noqa: BLE001
-                    if Y2 is not None:
-                        res.violate(Violation(ID, "exception", f"chain:{type(e).__name__}", dict(case, rewriter=[n1, n2]), f"chain raised {e!r}"))
-                    continue
-                if Y2 is not None and O.struct(Yc) != O.struct(Y2):
-                    res.violate(Violation(ID, "chain", "chain-not-sequential", dict(case, rewriter=[n1, n2]), f"Chained({n1},{n2})({O.show(X)}) = {O.show(Yc)} but sequential = {O.show(Y2)}"))
-            # the default chain as shipped
-            cur = X
-            ok = True
-            names = []
-            for rw in DEFAULT_REWRITER.rewriters:
-                rname = name_of(rw)
-                names.append(rname)
-                Y, viol = step(rname, rw, cur, vals if cur is X else [])
-                if viol:
-                    res.violate(Violation(ID, viol[0], "DEFAULT/" + viol[1], dict(case, rewriter=["DEFAULT"]), f"default chain at {rname}: " + viol[2]))
-                    ok = False
-                    break
-                cur = Y
-            if ok:
-                res.transitions += 1
-                try:
-                    Yd = DEFAULT_REWRITER.rewrite(X)
-                    if O.struct(Yd) != O.struct(cur):
-                        res.violate(Violation(ID, "chain", "default-not-sequential", dict(case, rewriter=["DEFAULT"]), f"DEFAULT({O.show(X)}) = {O.show(Yd)} but sequential = {O.show(cur)}"))
-                    for w in [w for w in witnesses(X) if O.member(w, X)] + [v for v in vals if O.member(v, X)]:
-                        if not O.member(w, Yd):
-                            res.violate(Violation(ID, "narrow", "DEFAULT:narrow", dict(case, rewriter=["DEFAULT"]), f"DEFAULT: {O.show(X)} -> {O.show(Yd)} no longer admits {w!r}"))
-                            break
-                    res.oblige("DEFAULT:names=" + ",".join(names), True)
-                except Exception as e:  # noqa: BLE001
-                    res.violate(Violation(ID, "exception", f"DEFAULT:{type(e).__name__}", dict(case, rewriter=["DEFAULT"]), f"DEFAULT raised {e!r}"))
-            if ci % 1501 == 0:
-                res.sample({"type": O.show(X), "from_values": exprs})
+            process_type(res, ctx.tier, ci, X, exprs, sing, memo, DEFAULT_REWRITER, ChainedRewriter)
         res.extra["types_synthetic"] = len(synth)
         res.extra["types_inferred"] = len(cases) - len(synth)
         return res
@@ -248,38 +255,6 @@ def replay(case: Dict[str, Any], ctx: Ctx) -> List[Violation]:
         synth = synth[: 9000] + synth[9000::3]
     cases = synth + inferred_types(case["tier"])
     X, exprs = cases[case["type_index"]]
-    vals = [V.ev(e) for e in exprs]
-    sing = dict(singles())
-    out: List[Violation] = []
-    names = case["rewriter"]
-    if names == ["DEFAULT"]:
-        cur = X
-        for rw in DEFAULT_REWRITER.rewriters:
-            Y, viol = step_check(name_of(rw), rw, cur, vals if cur is X else [])
-            if viol:
-                out.append(Violation(ID, viol[0], "DEFAULT/" + viol[1], case, viol[2]))
-                return out
-            cur = Y
-        try:
-            Yd = DEFAULT_REWRITER.rewrite(X)
-            if O.struct(Yd) != O.struct(cur):
-                out.append(Violation(ID, "chain", "default-not-sequential", case, "mismatch"))
-        except Exception as e:  # noqa: BLE001
-            out.append(Violation(ID, "exception", f"DEFAULT:{type(e).__name__}", case, repr(e)))
-        return out
-    cur = X
-    for i, n in enumerate(names):
-        Y, viol = step_check(n, sing[n], cur, vals if i == 0 else [])
-        if viol and i == len(names) - 1:
-            out.append(Violation(ID, viol[0], viol[1], case, viol[2]))
-        if Y is None:
-            return out
-        cur = Y
-    if len(names) == 2:
-        try:
-            Yc = ChainedRewriter([sing[names[0]], sing[names[1]]]).rewrite(X)
-            if O.struct(Yc) != O.struct(cur):
-                out.append(Violation(ID, "chain", "chain-not-sequential", case, "mismatch"))
-        except Exception as e:  # noqa: BLE001
-            out.append(Violation(ID, "exception", f"chain:{type(e).__name__}", case, repr(e)))
-    return out
+    res = Result()
+    process_type(res, case["tier"], case["type_index"], X, exprs, singles(), {}, DEFAULT_REWRITER, ChainedRewriter)
+    return res.violations
